@@ -128,6 +128,13 @@ func (m CryptoMethod) Implemented() bool {
 	return m == CryptoAES
 }
 
+// hasUsableKey reports whether a cached session carries a key cedar can install on
+// a stream (setupStreamEncryption applies AES-GCM keys only).
+func hasUsableKey(entry *SessionEntry) bool {
+	ki := entry.KeyInfo()
+	return ki != nil && len(ki.Data) > 0 && isAESGCM(CryptoMethod(ki.Protocol))
+}
+
 // isAESGCM reports whether a negotiated crypto name denotes AES-256-GCM. A
 // freshly-negotiated session records it as "AES" (CryptoAES) while inherited /
 // family sessions record it as "AESGCM"; both are the same cipher.
@@ -522,7 +529,7 @@ func (a *Authenticator) ClientHandshake(ctx context.Context) (*SecurityNegotiati
 		cmdStr := fmt.Sprintf("%d", a.config.Command)
 		// Only a session that carries a key can be resumed (the key is the proof of
 		// possession); a keyless cached session falls through to a full handshake.
-		if entry, ok := cache.LookupByCommand(a.config.SecurityTag, serverAddr, cmdStr); ok && entry.KeyInfo() != nil && len(entry.KeyInfo().Data) > 0 {
+		if entry, ok := cache.LookupByCommand(a.config.SecurityTag, serverAddr, cmdStr); ok && hasUsableKey(entry) {
 			slog.Info(fmt.Sprintf("🔐 CLIENT: Found cached session %s for %s, attempting to resume...",
 				redactSessionID(entry.ID()), serverAddr), "destination", "cedar")
 
@@ -1466,6 +1473,15 @@ func (a *Authenticator) resumeSession(ctx context.Context, entry *SessionEntry, 
 	fail := func(reason string, err error) (*SecurityNegotiation, error) {
 		cache.Invalidate(entry.ID())
 		return nil, &SessionResumptionError{SessionID: entry.ID(), Reason: reason, Cause: err}
+	}
+
+	// Resuming means riding the cached key. An entry without a key cedar can apply
+	// (none at all, or one filed under a cipher other than AES-GCM) would leave the
+	// stream in plaintext while the negotiation reports the cached identity -- even
+	// when this side's own policy requires encryption -- on the mere say-so of the
+	// peer. Refuse it here so that the explicit-session path is covered too.
+	if !hasUsableKey(entry) {
+		return fail("cached session has no usable key", nil)
 	}
 
 	if err := msg.PutInt(ctx, commands.DC_AUTHENTICATE); err != nil {
